@@ -25,8 +25,6 @@ MUTANTS = [
      "linked = distances < (radii + patch_radius + max_scale_angle)", "linked = distances < (radii + patch_radius)"),
     ("c01-link-one-radius", ["C01"], "correlation/measurements.py",
      "linked = distances < (radii + patch_radius + max_scale_angle)", "linked = distances < (patch_radius + max_scale_angle)"),
-    ("c01-auto-j-ge-i", ["C01"], "correlation/measurements.py",
-     "if not auto or j > i:", "if not auto or j >= i:"),
     ("c01-auto-j-lt-i", ["C01"], "correlation/measurements.py",
      "if not auto or j > i:", "if not auto or j < i:"),
     ("c01-diag-not-halved", ["C01"], "correlation/measurements.py",
@@ -45,8 +43,6 @@ MUTANTS = [
     ("c01-empty-bin-lookup-shifted", ["C01", "C10"], "catalog/trees.py",
      "trees = tuple(trees.get(i + 1, empty_tree) for i in range(len(binning)))",
      "trees = tuple(trees.get(i, empty_tree) for i in range(len(binning)))"),
-    ("c01-cumulative-threshold", ["C01"], "catalog/trees.py",
-     "cumulative = len(ang_bins) < 8", "cumulative = True"),
     ("c01-sum-weights-wrong-id", ["C01"], "correlation/measurements.py",
      "sum_weights2[:, id2] = pair_counts.sum_weights2", "sum_weights2[:, id1] = pair_counts.sum_weights2"),
     ("c01-rweight-mid-linear", ["C01"], "catalog/trees.py",
@@ -54,6 +50,57 @@ MUTANTS = [
      "return (edges[:-1] + edges[1:]) / 2.0"),
     ("c01-max-angle-zmin", ["C01"], "correlation/measurements.py",
      "for zmid in config.binning.binning.mids", "for zmid in [max(config.binning.zmin, 0.05)]"),
+    # ---- C03
+    ("c03-diag-minus", ["C03"], "correlation/paircounts.py",
+     "samples = sum_tiled - row_sum - col_sum + diag", "samples = sum_tiled - row_sum - col_sum - diag"),
+    ("c03-diag-dropped", ["C03"], "correlation/paircounts.py",
+     "samples = sum_tiled - row_sum - col_sum + diag", "samples = sum_tiled - row_sum - col_sum"),
+    ("c03-row-twice", ["C03"], "correlation/paircounts.py",
+     'col_sum = np.einsum("bij->ib", bin_patch_array)', 'col_sum = np.einsum("bij->jb", bin_patch_array)'),
+    ("c03-samples-reversed", ["C03"], "correlation/paircounts.py",
+     "        return SampledData(self.binning, sum_patches, samples)", "        return SampledData(self.binning, sum_patches, samples[::-1])"),
+    ("c03-cov-prefactor", ["C03"], "correlation/corrdata.py",
+     "covmat = np.cov(concat_samples, rowvar=rowvar, ddof=0) * (num_samples - 1)", "covmat = np.cov(concat_samples, rowvar=rowvar, ddof=0) * num_samples"),
+    ("c03-cov-ddof", ["C03"], "correlation/corrdata.py",
+     "covmat = np.cov(concat_samples, rowvar=rowvar, ddof=0) * (num_samples - 1)", "covmat = np.cov(concat_samples, rowvar=rowvar, ddof=1) * (num_samples - 1)"),
+    ("c03-norm-from-full-total", ["C03"], "correlation/paircounts.py",
+     "        samples = counts.samples / sum_weights.samples", "        samples = counts.samples / sum_weights.data"),
+    ("c03-hist-jackknife-first-n", ["C03"], "redshifts.py",
+     "    idx_diagonal = idx_range * (num_patches + 1)", "    idx_diagonal = idx_range"),
+    ("c03-auto-diag-not-halved-in-norm", ["C03", "C04"], "correlation/paircounts.py",
+     '            np.einsum("bii->bi", array)[:] *= 0.5  # view of original array', '            pass'),
+    # ---- C04
+    ("c04-ls-sign", ["C04"], "correlation/corrfunc.py",
+     "    return ((dd - dr) + (rr - rd)) / rr", "    return ((dd - dr) - (rr - rd)) / rr"),
+    ("c04-ls-rd-ignored", ["C04"], "correlation/corrfunc.py",
+     "    if rd is None:\n        rd = dr\n    return", "    rd = dr\n    return"),
+    ("c04-dp-no-minus-one", ["C04"], "correlation/corrfunc.py",
+     "    return (dd - mixed) / mixed", "    return dd / mixed"),
+    ("c04-dz-not-squared", ["C04"], "redshifts.py",
+     "        dz2_data = cross_data.binning.dz**2", "        dz2_data = cross_data.binning.dz"),
+    ("c04-autocorr-multiplied", ["C04"], "redshifts.py",
+     "        nz_data = w_sp_data / np.sqrt(dz2_data * w_ss_data * w_pp_data)", "        nz_data = w_sp_data * np.sqrt(w_ss_data * w_pp_data / dz2_data)"),
+    ("c04-samples-full-autocorr", ["C04", "C03"], "redshifts.py",
+     "            w_ss_samp = ref_data.samples", "            w_ss_samp = ref_data.data"),
+    ("c04-norm-sum-data", ["C04"], "redshifts.py",
+     "            norm = np.nansum(self.binning.dz * self.data)", "            norm = np.nansum(self.data)"),
+    ("c04-hist-norm-no-width", ["C04"], "redshifts.py",
+     "        data = self.data * width_correction\n        samples = self.samples * width_correction", "        data = self.data * 1.0\n        samples = self.samples * 1.0"),
+    ("c04-estimator-picks-dp-with-rr", ["C04"], "correlation/corrfunc.py",
+     "estimator = landy_szalay if self.rr is not None else davis_peebles", "estimator = landy_szalay if (self.rr is not None and self.rd is not None) else davis_peebles"),
+    # ---- C10
+    ("c10-keep-range-shifted", ["C10", "C01"], "catalog/trees.py",
+     "            if 0 < i <= len(binning):", "            if 0 <= i < len(binning):"),
+    ("c10-hist-right-inverted", ["C10"], "redshifts.py",
+     'bin_idx = np.digitize(redshifts, binning.edges, right=(binning.closed == "right"))', 'bin_idx = np.digitize(redshifts, binning.edges, right=(binning.closed == "left"))'),
+    ("c10-hist-half-open-default", ["C10"], "redshifts.py",
+     'bin_idx = np.digitize(redshifts, binning.edges, right=(binning.closed == "right"))', 'bin_idx = np.digitize(redshifts, binning.edges)'),
+    ("c10-hist-outer-kept", ["C10"], "redshifts.py",
+     "    return counts[1:-1].astype(np.float64)", "    counts[1] += counts[0]\n    return counts[1:-1].astype(np.float64)"),
+    ("c10-empty-tree-removed", ["C10", "C01"], "catalog/trees.py",
+     "        if self.tree is None or other.tree is None:\n            return np.zeros(len(ang_limits))\n", ""),
+    ("c10-binning-file-closed-flipped", ["C07"], "catalog/trees.py",
+     "                closed_left = binning.closed == Closed.left", "                closed_left = binning.closed == Closed.left or len(binning) == 1"),
     # ---- C14
     ("c14-arcsin-arccos", ["C14"], "coordinates.py",
      "angles = 2.0 * np.arcsin(dists / 2.0)", "angles = 2.0 * np.arccos(1.0 - dists / 2.0)"),
@@ -71,8 +118,8 @@ MUTANTS = [
      "rmin=rmin, rmax=rmax, unit=unit, rweight=rweight, resolution=resolution\n        )\n\n        cosmology = (",
      "rmin=rmin, rmax=rmax, unit=unit, resolution=resolution\n        )\n\n        cosmology = ("),
     ("c15-cosmology-not-forwarded", ["C15"], "config/combined.py",
-     "            closed=closed,\n            cosmology=cosmology,\n        )\n\n        max_workers",
-     "            closed=closed,\n        )\n\n        max_workers"),
+     "            closed=closed,\n            cosmology=cosmology,\n        )\n        max_workers",
+     "            closed=closed,\n        )\n        max_workers"),
     ("c15-eq-ignores-unit", ["C15"], "config/scales.py",
      "            and self.unit == other.unit\n", ""),
     ("c15-kpc-factor", ["C15", "C01"], "cosmology.py",
@@ -97,7 +144,7 @@ MUTANTS = [
      "            and np.array_equal(self.counts, other.counts)\n            and self.auto == other.auto",
      "            and np.array_equal(self.counts, other.counts)"),
     ("c17-compat-skips-binning", ["C17"], "correlation/paircounts.py",
-     "        return binnings_compatible and patches_compatible", "        return patches_compatible"),
+     "        binnings_compatible = BinwiseData.is_compatible(self, other, require=require)", "        binnings_compatible = True"),
     ("c17-bin-slice-sumweights-swapped", ["C17"], "correlation/paircounts.py",
      "binning, self.sum_weights1[item], self.sum_weights2[item], auto=self.auto",
      "binning, self.sum_weights2[item], self.sum_weights1[item], auto=self.auto"),
@@ -172,6 +219,8 @@ def main():
                 for pid in props:
                     rc, lines, dt = run_check(pid)
                     verdict = {0: "MISSED", 1: "caught", 2: "inconclusive"}.get(rc, f"rc={rc}")
+                    if rc == 1 and not any(l.startswith("VIOLATION") for l in lines):
+                        verdict = "check-error"
                     mech = "; ".join(l.split("mechanism=")[1].split(" ")[0] for l in lines if "mechanism=" in l)[:200]
                     summary.append((name, pid, verdict))
                     print(f"{name:40s} {pid} {verdict:12s} {dt:5.1f}s {tests} {mech}", flush=True)
